@@ -273,6 +273,9 @@ class BaseObserver(EventDispatcher):
 
     def start(self) -> None:
         for emitter in self._emitters.copy():
+            if emitter.is_alive():
+                # Already running: start() is being retried after an earlier attempt failed part-way.
+                continue
             try:
                 emitter.start()
             except Exception:
